@@ -50,7 +50,7 @@ RULE = (
     "distinct = sha1(case); non-trivial = nested requests were observed (depth >= 3) or the substitution changed the result."
 )
 ASSUMPTIONS = ["substitution cases are compared only for dictionaries on which the un-substituted graph evaluates (keys of the substituted dataset are still computed by caching consumers)"]
-FLOORS = {"user_subclass_operations": (13, 13), "backend_lied_exists": (150, 1000), "log_emitters_checked": (9, 9), "types_checked": (28, 28), "method_requests_matched": (106, 106), "graph_evaluations": (4000, 30000), "body_stack_checks": (1500, 10000),
+FLOORS = {"nested_datasetclass_checks": (3, 3), "user_subclass_operations": (13, 13), "backend_lied_exists": (150, 1000), "log_emitters_checked": (9, 9), "types_checked": (28, 28), "method_requests_matched": (106, 106), "graph_evaluations": (4000, 30000), "body_stack_checks": (1500, 10000),
           "backend_calls_under_request": (8000, 60000), "option_type_validations": (20000, 100000), "substitutions_compared": (1500, 6000),
           "substitution_changed_result": (800, 3000), "implementation_calls_matched": (100000, 1000000)}
 COVER = {"substitution_inner_blocks": ["none", "cache.disabled", "logging.disabled", "mapping-form", "pair-form"]}
@@ -463,6 +463,48 @@ def user_subclasses(ctx):
             ctx.nontrivial(spec_hash(["user-subclass", name, op]))
 
 
+def nested_datasetclass(ctx):
+    """A dataset class used as a member of another dataset class (and of a dataset): instantiating the outer one
+    evaluates the inner one through a request - a tap sees it, a substitute for it is honoured."""
+    Inner = datasetclass(type("Inner", (), {"__annotations__": {"a": int, "b": int}, "a": Option("A", 1), "b": Option("S.X", 2)}))
+    Outer = datasetclass(type("Outer", (), {"__annotations__": {"inner": object, "c": int}, "inner": Inner, "c": Option("C", 3)}))
+    Outer2 = datasetclass(type("Outer2", (Outer,), {"__annotations__": {"d": int}, "d": Option("A", 0)}))
+    user = dataset.nocache(lambda i=Inner, o=Outer: (i.a, o.inner.b, o.c))
+    o = {"A": 5, "S": {"X": 6}}
+    for name, subject_ in (("Outer", Outer), ("Outer2 (inherits the member)", Outer2), ("dataset using both", user)):
+        with Tap() as t:
+            plain = observe(subject_.evaluate, copy.deepcopy(o))
+        seen = [e for e in t.of("evaluate", "return") if subject_of(e[1]) is Inner]
+        ctx.evaluations += 1
+        ctx.count("nested_datasetclass_checks")
+        W = {"family": "nested-datasetclass", "subject": name}
+        if not seen:
+            ctx.violation("operation-outside-request", f"{name}: the nested dataset class was instantiated but no evaluate request for it was observed ({short(plain)})", W)
+            return
+        canned = ("substituted-inner",)
+        cur = rt.current_runtime()
+        inner_handler = cur.handlers[EvaluateRequest]
+
+        def handler(request):
+            if request.evaluatable is Inner:
+                return canned
+            return inner_handler(request)
+
+        with rt.handle(EvaluateRequest, handler):
+            try:
+                v = subject_.evaluate(copy.deepcopy(o))
+                got = v.inner if hasattr(v, "inner") else repr(v)
+            except Exception as e:  # noqa: BLE001  (the dataset body reads attributes of the canned value)
+                got = f"{type(e).__name__}"
+        if name != "dataset using both" and got != canned:
+            ctx.violation("substitution-not-honoured", f"{name}: with the nested dataset class substituted its member is {got!r}, expected the substitute", W)
+            return
+        if name == "dataset using both" and got != "EvaluationError":
+            ctx.violation("substitution-not-honoured", f"{name}: the substitute for the nested dataset class did not reach the body ({got!r})", W)
+            return
+        ctx.nontrivial(spec_hash(["nested-datasetclass", name]))
+
+
 def subject_of(request):
     from ..tap import subject
 
@@ -536,6 +578,7 @@ def run(ctx):
         reflection(ctx)
         log_emitters(ctx)
         user_subclasses(ctx)
+        nested_datasetclass(ctx)
     else:
         # every shard re-checks reflection cheaply so that the floors are shard-independent
         pass
@@ -566,7 +609,9 @@ def run(ctx):
 
 def replay(ctx, rep):
     w = rep["witness"]
-    if w.get("family") == "user-subclasses":
+    if w.get("family") == "nested-datasetclass":
+        nested_datasetclass(ctx)
+    elif w.get("family") == "user-subclasses":
         user_subclasses(ctx)
     elif w.get("family") == "log-emitters":
         log_emitters(ctx)
